@@ -5,6 +5,7 @@ speak about the rows the evaluator of the printed statements returns.
 -/
 import SideVerif.Layer.Routing
 import SideVerif.Proofs.Reagg
+import SideVerif.Proofs.EvalCongr
 namespace SideVerif
 open Sql Reagg
 
@@ -255,11 +256,22 @@ theorem mem_buckets_key {α κ P : Type} [BEq κ] [LawfulBEq κ] (k1 : α → κ
 
 theorem allTrue_nil (r : Row) : allTrue [] r = true := by simp [allTrue]
 
-theorem readsRollup_of_shape (s : RollupShape) (q : Requested) (hn : s.A.Nodup) (hraw : s.raw ∉ s.A)
+theorem allTrue_congr (F : List Expr) (r1 r2 : Row) (h : ∀ f ∈ F, f.eval r1 = f.eval r2) : allTrue F r1 = allTrue F r2 := by
+  induction F with
+  | nil => rfl
+  | cons f fs ih =>
+    simp only [allTrue, List.all_cons] at ih ⊢
+    rw [h f (List.mem_cons_self ..), ih (fun g hg => h g (List.mem_cons_of_mem _ hg))]
+
+/-- filters `F` mention only stored dimensions whose expression is the bare column of the same name: the same filter
+text is valid over the base table and over the rollup -/
+theorem readsRollup_of_shape_filtered (s : RollupShape) (q : Requested) (hn : s.A.Nodup) (hraw : s.raw ∉ s.A)
     (hsel : ∀ d ∈ q.sel, d ∈ s.dims)
     (hcompat : ∀ G, q.G = some G → ∀ t : Int, trunc G (trunc s.P t) = trunc G t)
+    (F : List Expr) (hF : ∀ f ∈ F, ∀ c ∈ f.cols, (c, Expr.col c) ∈ s.dims)
     (part : List Row → Val) (rows : List Row) :
-    ReadsRollup s.K1 (s.K2 q) (s.Kd q) [] [] s.raw (fun k => (s.K2 q).map fun it => it.e.eval (s.A.zip k)) (fun _ => true) part rows := by
+    ReadsRollup s.K1 (s.K2 q) (s.Kd q) F F s.raw (fun k => (s.K2 q).map fun it => it.e.eval (s.A.zip k))
+      (fun k => allTrue F (s.A.zip k)) part rows := by
   have hA : s.K1.map (·.alias) = s.A := by simp [RollupShape.K1, RollupShape.A, List.map_map, Function.comp]
   have hlen : ∀ b ∈ buckets (fun r => s.K1.map fun k => k.e.eval r) part rows, b.1.length = s.A.length := by
     intro b hb
@@ -280,7 +292,13 @@ theorem readsRollup_of_shape (s : RollupShape) (q : Requested) (hn : s.A.Nodup) 
       intro d hd
       simp only [Function.comp, Expr.eval]
       exact get_outRow_of_mem _ _ _ _ _ (hdim d hd) hl
-  · intro b _; exact allTrue_nil _
+  · intro b hb
+    rw [hA]
+    apply allTrue_congr
+    intro f hf
+    apply Expr.eval_congr
+    intro c hc
+    exact get_outRow_of_mem _ _ _ _ _ (List.mem_cons_of_mem _ (List.mem_map.mpr ⟨(c, Expr.col c), hF f hf c hc, rfl⟩)) (hlen b hb)
   · intro b _
     rw [hA]; simp only [Expr.eval]
     exact get_outRow_raw _ _ _ _ hraw
@@ -309,7 +327,34 @@ theorem readsRollup_of_shape (s : RollupShape) (q : Requested) (hn : s.A.Nodup) 
       have hm : (s.dims.map ((fun k : Item => k.e.eval r) ∘ fun d => ({ e := d.2, alias := d.1 } : Item))) =
           s.dims.map fun q => q.2.eval r := List.map_congr_left fun _ _ => rfl
       rw [hm, this]; rfl
-  · intro r _; exact allTrue_nil _
+  · intro r _
+    apply allTrue_congr
+    intro f hf
+    apply Expr.eval_congr
+    intro c hc
+    have hd := hF f hf c hc
+    have hne : (c == s.ta) = false := by
+      have : c ≠ s.ta := by
+        intro he
+        have h1 : s.ta ∈ s.dims.map (·.1) := he ▸ List.mem_map.mpr ⟨(c, Expr.col c), hd, rfl⟩
+        exact (List.nodup_cons.mp hn).1 h1
+      simpa using this
+    simp only [RollupShape.K1, RollupShape.A, List.map_cons, List.map_map, List.zip_cons_cons, Row.get, List.lookup_cons, hne]
+    have := lookup_zip_map s.dims (List.nodup_cons.mp hn).2 (c, Expr.col c) hd (fun e => e.eval r)
+    have hm : (s.dims.map ((fun k : Item => k.e.eval r) ∘ fun d => ({ e := d.2, alias := d.1 } : Item))) =
+        s.dims.map fun q => q.2.eval r := List.map_congr_left fun _ _ => rfl
+    simp only at this
+    rw [hm, this]; simp [Expr.eval, Row.get]
   · simp [RollupShape.K2, RollupShape.Kd, List.map_map, Function.comp]
+
+theorem readsRollup_of_shape (s : RollupShape) (q : Requested) (hn : s.A.Nodup) (hraw : s.raw ∉ s.A)
+    (hsel : ∀ d ∈ q.sel, d ∈ s.dims)
+    (hcompat : ∀ G, q.G = some G → ∀ t : Int, trunc G (trunc s.P t) = trunc G t)
+    (part : List Row → Val) (rows : List Row) :
+    ReadsRollup s.K1 (s.K2 q) (s.Kd q) [] [] s.raw (fun k => (s.K2 q).map fun it => it.e.eval (s.A.zip k)) (fun _ => true) part rows := by
+  have H := readsRollup_of_shape_filtered s q hn hraw hsel hcompat [] (by simp) part rows
+  have e : (fun k => allTrue ([] : List Expr) (s.A.zip k)) = fun _ => true := by funext k; exact allTrue_nil _
+  rw [e] at H
+  exact H
 
 end SideVerif
